@@ -77,6 +77,14 @@ func Harness_C05_validate() {
 	}
 	verifReach("validated")
 	r := &req.Request
+	// vacuity guard for the priority clause: the case where index and URL name different registered endpoints is explored
+	if len(md.SPSSODescriptors) == 1 && len(md.SPSSODescriptors[0].AssertionConsumerServices) == 2 {
+		e := md.SPSSODescriptors[0].AssertionConsumerServices
+		if r.AssertionConsumerServiceIndex != "" && strconv.Itoa(e[1].Index) == r.AssertionConsumerServiceIndex && strconv.Itoa(e[0].Index) != r.AssertionConsumerServiceIndex &&
+			r.AssertionConsumerServiceURL != "" && e[0].Location == r.AssertionConsumerServiceURL {
+			verifReach("index-and-url-name-different-endpoints")
+		}
+	}
 	verifAssert(verifNotAfter(now, r.IssueInstant.Add(MaxIssueDelay)), "C05/fresh")
 	verifAssert(r.Version == "2.0", "C05/version")
 	verifAssert(verifOr(r.Destination == "", r.Destination == idp.SSOURL.String()), "C05/destination")
